@@ -746,53 +746,27 @@ func ruleGates(c *Ctx, a *tcpAnchors, which string) {
 func ruleSaltSlice(c *Ctx, rule string) {
 	p := c.P
 	n := 0
-	for _, f := range p.FnsIn("service") {
-		var readFull, mark *ssa.Call
-		for _, cl := range eng.Calls(f) {
-			if call, ok := cl.(*ssa.Call); ok {
-				if eng.CalleeName(&call.Call) == "io.ReadFull" {
-					readFull = call
-				}
-				if eng.MethodName(&call.Call) == "MarkUsedByClientIP" {
-					mark = call
-				}
-			}
-		}
-		if readFull == nil || mark == nil || p.IsTestSupport(f) {
-			continue
-		}
-		buf := p.Resolve(readFull.Call.Args[1])
-		// the search call: returns *CipherEntry
-		var entry ssa.Value
-		for _, cl := range eng.Calls(f) {
-			if call, ok := cl.(*ssa.Call); ok {
-				res := call.Call.Signature().Results()
-				if res.Len() >= 1 && eng.TypeName(res.At(0).Type()) == "service.CipherEntry" {
-					for _, r := range *call.Referrers() {
-						if ex, ok := r.(*ssa.Extract); ok && ex.Index == 0 {
-							entry = ex
-						}
-					}
-				}
-			}
+	for _, kf := range findKeyFinders(c) {
+		f := kf.f
+		isMatched := func(v ssa.Value) bool {
+			return kf.search != nil && p.AnyFrom(v, eng.OriginOpts{ThroughConvert: true, ThroughFieldLoad: true}, func(x ssa.Value) bool { return eng.ResultOf(x, kf.search, -1) })
 		}
 		for _, r := range eng.Returns(f) {
-			if !eng.IsZeroValue(r.Results[len(r.Results)-1]) {
+			if len(r.Results) == 0 || !eng.IsZeroValue(r.Results[len(r.Results)-1]) {
 				continue
 			}
-			for i, rv := range r.Results {
+			for _, rv := range r.Results {
 				if rv.Type().String() != "[]byte" {
 					continue
 				}
 				n++
-				_ = i
 				s, ok := p.Resolve(rv).(*ssa.Slice)
 				good := false
 				why := "the returned salt is not a prefix slice of the bytes read"
-				if ok && s.Low == nil && s.High != nil && p.Resolve(s.X) == buf {
+				if ok && s.Low == nil && s.High != nil && kf.sameBuf(c, s.X) {
 					if hc, ok := p.Resolve(s.High).(*ssa.Call); ok && eng.CalleeName(&hc.Call) == "(*sdk/shadowsocks.EncryptionKey).SaltSize" {
 						t, fl, base, isF := eng.FieldLoad(p.Resolve(hc.Call.Args[0]))
-						if isF && t == "service.CipherEntry" && fl == "CryptoKey" && entry != nil && p.Resolve(base) == entry {
+						if isF && t == "service.CipherEntry" && fl == "CryptoKey" && isMatched(base) {
 							good = true
 						} else {
 							why = "the salt length is the SaltSize() of something other than the matched entry's key"
